@@ -228,7 +228,17 @@ def run_shard(ctx):
     done = 0
     while done < budget:
         bits = rng.choice([64, 64, 32])
-        if rng.random() < 0.25:
+        if done == 0:
+            # every shard starts with a batch of 16-bit addressing (0x67-prefixed 32-bit code): base+index without scale, single 16-bit base
+            bits = 32
+            lines = []
+            for _ in range(40):
+                b16, i16 = rng.choice(["%bx", "%bp"]), rng.choice(["%si", "%di"])
+                d16 = rng.choice(["", "0x10", "-0x4", "0x7f", "0x100"])
+                m16 = rng.choice([f"{d16}({b16},{i16})", f"{d16}({b16},{i16})", f"{d16 or '0x8'}({rng.choice(['%bx', '%si', '%di', '%bp'])})", "(%bx)"])
+                lines.append(rng.choice([f"mov {m16},%eax", f"mov %eax,{m16}", f"lea {m16},%ecx", f"addl $0x1,{m16}", f"mov {m16},%ax"]))
+            r = asmgen.assemble(ws, lines, bits)
+        elif rng.random() < 0.25:
             # disassembly of random / biased bytes: memory operands in encodings a compiler rarely emits (%riz / %eiz as index, redundant
             # SIB bytes, 32-bit registers in 64-bit code, large displacements)
             blob, secs, bits = objd.random_object(rng, size=(300, 1500))
@@ -246,7 +256,13 @@ def run_shard(ctx):
         rinsts, _ = refline.read_listing(r[1])
         segs = [(ri, p, o) for ri in rinsts if not ri.parsed.prefixes and "," not in ri.parsed.mnemonic
                 for p, o in enumerate(ri.ops_att) if re.match(r"^%[a-z]s:", o) and "(" in o]
-        rinsts = [ri for ri in rinsts if ri.plain and ri.ops_att]
+        # lines whose memory operand is in a judged form; the operands in FRONT of it must be nameable (plain forms), those after it are free
+        two_reg = [ri for ri in rinsts if ri.ops_att and not ri.parsed.prefixes and ri.parsed.mnemonic.isalnum() and not ri.plain
+                   and any(refline.RE_MEM2.match(o) for o in ri.ops_att)
+                   and all(x is not None for o, x in zip(ri.ops_att, ri.ops_norm) if not refline.RE_MEM2.match(o))]
+        for ri in two_reg:
+            ctx.event("two_register_16_bit_operands_seen")
+        rinsts = [ri for ri in rinsts if ri.plain and ri.ops_att] + two_reg
         # operands with a segment override carry an extra component: a $deref built from the part after the override must not match
         for ri, p, o in segs[:6]:
             inner = o.split(":", 1)[1]
